@@ -789,8 +789,10 @@ class FileProcessTensor(BaseProcessTensor):
         last_cap = tn.Node(cap)
 
         for step in reversed(range(length)):
-            trace_in = tn.Node(self._trace_in)
-            trace_out = tn.Node(self._trace_out)
+            # `get_mpo_tensor()` returns the tensor with `transform_in` and
+            # `transform_out` already applied: close it with the plain trace.
+            trace_in = tn.Node(self._trace)
+            trace_out = tn.Node(self._trace)
             ten = tn.Node(self.get_mpo_tensor(step))
             ten[1] ^ last_cap[0]
             ten[2] ^ trace_in[0]
